@@ -60,6 +60,19 @@ def run(tier):
                                               for j, s in enumerate(inputs)]
         runs.append({"name": "L%d" % n, "inputs": data, "form": form, "batch_size": bs if bs else None,
                      "n_jobs": 1, "threshold": 0, "kinds": list(kinds), "also_plain": n % 3 != 2, "ctor_bs": n % 2 == 0})
+    # batches with more than ten rows (two-digit positions / ids), one or two malformed rows among them
+    cheap = ["%sO>>%sO" % ("C" * k, "C" * k) for k in range(1, 8)] + ["%sBr.[OH-]>>%sO" % ("C" * k, "C" * k) for k in range(2, 9)]
+    for n_, (bad_pos, bs_) in enumerate([((3,), None), ((0, 12), None), ((13,), 12), ((5, 6), 13), ((11,), 11), ((), 12)]):
+        rows_ = list(cheap)
+        kinds_ = ["ok"] * len(rows_)
+        for j, pos in enumerate(bad_pos):
+            rows_.insert(pos, ["CC)O>>CCO", "CC.O"][j % 2])
+            kinds_.insert(pos, ["unparsable", "nosep"][j % 2])
+        form_ = ["list", "dict", "csv", "json"][n_ % 4]
+        data_ = rows_ if form_ == "list" else [{"reaction": s_, "rid": "big%d_%d" % (n_, j), "note": "n%d" % j}
+                                               for j, s_ in enumerate(rows_)]
+        runs.append({"name": "big%d" % n_, "inputs": data_, "form": form_, "batch_size": bs_, "n_jobs": 2, "threshold": 0,
+                     "kinds": kinds_, "also_plain": n_ % 2 == 0})
     # missing values in dict / json sources
     runs.append({"name": "missing_dict", "inputs": [{"reaction": "CCO>>CCO"}, {"reaction": None}, {"reaction": "CC>>CCC"}],
                  "form": "dict", "batch_size": 2, "n_jobs": 1, "threshold": 0, "kinds": ["ok", "nosep", "ok"]})
